@@ -444,3 +444,7 @@ _add(
     "C26",
     m("default-returned-unevaluated", "redun/context.py", "        lambda context: scheduler.evaluate(\n            get_context_value(context, var_path, default), parent_job=parent_job\n        )", "        lambda context: get_context_value(context, var_path, default)", "C26.3"),
 )
+_add(
+    "C26",
+    m("update-context-reads-own-dict", T, "        prev_context = self.get_task_option(\"_context_override\", {})", "        prev_context = self._task_options_override.get(\"_context_override\", {})", "C26.4"),
+)
